@@ -29,6 +29,10 @@ CHECKS = {
    text="For every stream of <=3 (quick) / <=4 (thorough) messages from a 10-message pool, buffer sizes 8/16/64 (thorough: 7 sizes) and every chunking with <=2 (thorough <=3) cuts plus regular chunkings and zero-length reads, the fault-free transport trace of the real process future is checked (response buffer empty and everything owed written and flushed at every read; writes equal the responses owed for the queries that ran successfully; no empty write; result is the transport's end-of-stream error, never Ok), and then a distinct transport error is injected at every index of that call sequence - reads, writes and flushes alike: the trace must be a prefix of the fault-free trace ending at the fault, nothing may follow, and process must return that very error.",
    note="Owed responses are derived from the observed handler log and the recording interface's value table; a query unit for which an error is reported owes nothing.",
    technique="exhaustive fault injection at every position of every explored transport call sequence of the real process future"),
+ "C11": dict(engine="msg-enum",
+   text="14 well-formed base messages (every data kind as parameter, optional node present and omitted, digits and underscore in mnemonics, relative / absolute / common units in compounds) are rendered in every combination of mnemonic form (short/long x upper/lower/alternating case), white space at every permitted slot and LF vs CR LF (joint product per message up to 4e7 variants in quick / 2e9 in thorough, factored beyond), plus every slot with each of the 32 white-space byte values (one and two bytes) and every pair of slots with 3 (quick) / 32 (thorough) values; each variant is executed by the real Interface::run and must produce exactly the observation of the base rendering (handlers with argument values, responses, no errors).",
+   note="Differential oracle, no expected values; the base rendering of every message is required to be executed soundly (non-vacuity). Character data (ON) is not case-varied; white space around ':' is not varied.",
+   technique="bounded exhaustive enumeration of lexical variants on the real code, differential against the base rendering"),
  "C12": dict(engine="lex-sweep",
    text="Every token string x over a 30-token class-representative alphabet up to 5 (quick) / 6 (thorough) tokens, from four start nodes, is parsed by the real parser::parse; accepted units are re-parsed with every continuation of up to 2-3 tokens, rejected newline-terminated inputs likewise, and Incomplete verdicts are related to the verdicts of all byte prefixes. Exhaustive within these bounds; nothing is sampled.",
    note="Assumes the alphabet is class-representative for the parser's byte predicates (DESIGN.md 3.2); continuations bounded to 3 tokens; trusts rustc and the harness's verdict comparison.",
